@@ -154,7 +154,7 @@ def order_rules(chk):
     ok_list = 'halo_fns = path' in txt
     chk.check(ok_dir and ok_list, 'C03-R2', CAT, CLS + '_setup_file_paths', 'directory: sorted glob; list: user order', '',
               f'directory sorted={ok_dir}; list keeps user order={ok_list}', node=sp)
-    ok_inds = any(t.startswith('superslab_inds = np.array([int(hfn.stem.split(') and 'for hfn in halo_fns' in t for t in txt)
+    ok_inds = any(t.startswith('superslab_inds = np.array([int(hfn.stem.split(') and 'for hfn in halo_fns' in t for t in txt) or _indices_in_file_order(sp)
     ok_clean = any(t.startswith('cleaned_halo_fns = [clean_halo_info_dir /') and 'for i in superslab_inds' in t for t in txt)
     chk.check(ok_inds and ok_clean, 'C03-R2', CAT, CLS + '_setup_file_paths', 'superslab indices and cleaning files derived position-by-position from halo_fns', '',
               f'indices from halo_fns in order={ok_inds}; cleaning files from indices in order={ok_clean}', node=sp)
@@ -247,3 +247,53 @@ def _all_pairs_compared(fn, arr):
             if (is_elem(l, do) and is_elem(r, di)) or (is_elem(l, di) and is_elem(r, do)):
                 return True
     return False
+
+
+def _indices_in_file_order(sp):
+    """superslab_inds = np.array(L) where L lists, in the order of halo_fns, int(<text after the last underscore of the stem>):
+    L is a comprehension over halo_fns or a list filled by one append per iteration of `for hfn in halo_fns`."""
+    def is_suffix_int(e, var, local):
+        if not (isinstance(e, ast.Call) and dotted(e.func) == 'int' and len(e.args) == 1):
+            return False
+        a = e.args[0]
+        if isinstance(a, ast.Name) and a.id in local:
+            a = local[a.id]
+        t = unparse(a).replace(' ', '').replace('"', "'")
+        return t in (f"{var}.stem.split('_')[-1]", f"{var}.stem.rsplit('_',1)[-1]", f"{var}.stem.rpartition('_')[2]", f"{var}.stem.rpartition('_')[-1]")
+    arrs = [n for n in walk_no_nested(sp) if isinstance(n, ast.Assign) and unparse(n.targets[0]) == 'superslab_inds' and isinstance(n.value, ast.Call)
+            and dotted(n.value.func) == 'np.array' and n.value.args]
+    for a in arrs:
+        v = a.value.args[0]
+        if isinstance(v, ast.ListComp) and len(v.generators) == 1 and unparse(v.generators[0].iter) == 'halo_fns' and not v.generators[0].ifs \
+                and isinstance(v.generators[0].target, ast.Name) and is_suffix_int(v.elt, v.generators[0].target.id, {}):
+            return True
+        if isinstance(v, ast.Name):
+            L = v.id
+            for lp in [n for n in walk_no_nested(sp) if isinstance(n, ast.For) and unparse(n.iter) == 'halo_fns' and isinstance(n.target, ast.Name)]:
+                var = lp.target.id
+                local = {}
+                adds = []
+                okbody = True
+                for st in lp.body:
+                    if isinstance(st, ast.Assign) and isinstance(st.targets[0], ast.Name):
+                        local[st.targets[0].id] = st.value
+                    elif isinstance(st, ast.Assign) and isinstance(st.targets[0], ast.Tuple) and isinstance(st.value, ast.Call) \
+                            and isinstance(st.value.func, ast.Attribute) and st.value.func.attr == 'rpartition' and len(st.targets[0].elts) == 3:
+                        last = st.targets[0].elts[2]
+                        if isinstance(last, ast.Name):
+                            local[last.id] = ast.Subscript(value=st.value, slice=ast.Constant(2), ctx=ast.Load())
+                    elif isinstance(st, ast.Expr) and isinstance(st.value, ast.Call) and unparse(st.value.func) == f'{L}.append' and len(st.value.args) == 1:
+                        adds.append(st.value.args[0])
+                    elif isinstance(st, ast.AugAssign) and unparse(st.target) == L and isinstance(st.value, ast.List) and len(st.value.elts) == 1:
+                        adds.append(st.value.elts[0])
+                    else:
+                        okbody = False
+                init = [n for n in walk_no_nested(sp) if isinstance(n, ast.Assign) and unparse(n.targets[0]) == L and isinstance(n.value, ast.List)
+                        and not n.value.elts and n.lineno < lp.lineno]
+                if okbody and len(adds) == 1 and is_suffix_int(adds[0], var, local) and init and not early_exits_in(lp):
+                    return True
+    return False
+
+
+def early_exits_in(lp):
+    return any(isinstance(n, (ast.Continue, ast.Break, ast.Return)) for n in walk_no_nested(lp) if n is not lp)
